@@ -74,6 +74,7 @@ Row(k, vs1, vs2, vs3, vs4, vsm, vav, h) ==
         fout == Clamp(Mul(P.q, vs1))
     IN [t |-> T(k), c1 |-> c1, fin |-> Clamp(c1), bf |-> c1, fout |-> fout, fo2 |-> Clamp(P.g), s1 |-> vs1, s2 |-> vs2, s3 |-> vs3, s4 |-> vs4,
         lkt |-> Lookup(T(k), P.pts), lks |-> Lookup(vs1, P.pts),
+        lk2 |-> Add(Lookup(T(k), P.pts), R(1)),        \* a second graphical function over TIME: the same x points, every y one higher
         lkx |-> LookupX(T(k), P.pts), lkd |-> LookupD(T(k), P.pts), lkxs |-> LookupX(vs1, P.pts),
         dl |-> IF k >= P.dn THEN h[k - P.dn + 1] ELSE IF P.dinit = None THEN h[1] ELSE P.dinit,
         sm |-> vsm,
